@@ -26,11 +26,11 @@ Definition scanned_address (address : option Z) : Z :=
   match address with None => DEFAULT_ADDR | Some a => a end.
 
 Theorem scan_roundtrip serials address c r :
-  0 <= c -> rate_ok r -> addr_in_range address ->
+  0 <= c -> short c -> rate_ok r -> addr_in_range address ->
   parse_uri serials (scan_uri address c r) = POk 0 c r (be_bytes5 (scanned_address address)) None /\
   scan_radio_address address = option_map (fun a => AOk (be_bytes5 a)) address.
 Proof.
-  intros Hc Hr Ha. split.
+  intros Hc Hsc Hr Ha. split.
   - rewrite scan_uri_fmt. rewrite (parse_fmt serials (DNum 0) (scan_tail address c r) None 0).
     + unfold scan_tail. destruct address as [a|]; [|reflexivity].
       destruct (a =? DEFAULT_ADDR) eqn:E.
@@ -43,13 +43,15 @@ Proof.
       destruct (hexX_spec a Ha) as (Hv & Hl & _). repeat split; try assumption; try lia.
       unfold hex_val in Hv. destruct (hexdigits (hexX a)); [discriminate|discriminate Hv].
     + exact I.
+    + unfold scan_tail. destruct address as [a|]; [destruct (a =? DEFAULT_ADDR)|]; exact Hsc.
+    + exact I.
   - destruct address as [a|]; [|reflexivity]. cbn [scan_radio_address option_map].
     destruct (hexX_spec a Ha) as (Hv & Hl & _).
     destruct (addr_of_hex (hexX a) a Hl Hv) as [-> _]. reflexivity.
 Qed.
 
 Theorem scan_interface_roundtrip serials address f250 f1 f2 :
-  Forall (fun c => 0 <= c) (f250 ++ f1 ++ f2) -> addr_in_range address ->
+  Forall (fun c => 0 <= c /\ short c) (f250 ++ f1 ++ f2) -> addr_in_range address ->
   map (parse_uri serials) (scan_interface address f250 f1 f2) =
   let A := be_bytes5 (scanned_address address) in
   map (fun c => POk 0 c 0 A None) f250 ++ map (fun c => POk 0 c 1 A None) f1 ++ map (fun c => POk 0 c 2 A None) f2.
@@ -57,9 +59,9 @@ Proof.
   intros Hc Ha. cbv zeta. unfold scan_interface. rewrite !map_app, !map_map.
   apply Forall_app in Hc as [H0 Hc]. apply Forall_app in Hc as [H1 H2].
   f_equal; [|f_equal]; apply map_ext_in; intros c Hin.
-  - rewrite Forall_forall in H0. apply scan_roundtrip; [now apply H0|now left|exact Ha].
-  - rewrite Forall_forall in H1. apply scan_roundtrip; [now apply H1|right; now left|exact Ha].
-  - rewrite Forall_forall in H2. apply scan_roundtrip; [now apply H2|right; now right|exact Ha].
+  - rewrite Forall_forall in H0. destruct (H0 c Hin); apply scan_roundtrip; [assumption|assumption|now left|exact Ha].
+  - rewrite Forall_forall in H1. destruct (H1 c Hin); apply scan_roundtrip; [assumption|assumption|right; now left|exact Ha].
+  - rewrite Forall_forall in H2. destruct (H2 c Hin); apply scan_roundtrip; [assumption|assumption|right; now right|exact Ha].
 Qed.
 
 (* ---------------------------------------------------------------- scheme tests *)
